@@ -159,6 +159,8 @@ def guardTable : List (SiteKey × Guard) := [
     .local_ "empty() tested before"),
   (("sbe_schema_validator.hpp", "can_be_parsed_as_fp", "frontback", "if((str.front() == '+') || (str.front() == '-')) #2"),
     .local_ "empty() tested before"),
+  (("sbe_schema_validator.hpp", "can_be_parsed_as_fp", "substr", "signless_value = str.substr(1);"),
+    .local_ "str is not empty (tested at the top) and starts with a sign: 1 <= size()"),
   (("sbe_schema_validator.hpp", "can_be_parsed_as_fp", "index", "if((signless_value[0] == '0')"),
     .local_ "size()/empty() tested in the same condition"),
   (("sbe_schema_validator.hpp", "can_be_parsed_as_fp", "index", "&& ((signless_value[1] == 'x') || (signless_value[1] == 'X')))"),
@@ -235,10 +237,16 @@ def guardTable : List (SiteKey × Guard) := [
     .static "overload dispatch (same name, different signature); no cycle"),
   (("tags_generator.hpp", "make_tag", "recursion", "calls handle_public_encoding, make_composite_element_tags"),
     .unguarded .nestingTooDeep),
+  (("tags_generator.hpp", "make_tag", "popback", "path.pop_back();"),
+    .order "pops what the matching push_back / emplace_back a few lines above in the same function pushed"),
+  (("tags_generator.hpp", "make_tag", "popback", "path.pop_back(); #2"),
+    .order "pops what the matching push_back / emplace_back a few lines above in the same function pushed"),
   (("tags_generator.hpp", "make_composite_element_tags", "recursion", "calls make_tag"),
     .unguarded .nestingTooDeep),
   (("tags_generator.hpp", "make_composite_element_tags", "optderef", "make_type_impl_path(*ctx.mangled_name));"),
     .local_ "tested by if(x) on the same optional in this function"),
+  (("tags_generator.hpp", "make_tag", "popback", "path.pop_back(); #3"),
+    .order "pops what the matching push_back / emplace_back a few lines above in the same function pushed"),
   (("tags_generator.hpp", "make_tag", "optderef", "\"referred_type\", make_type_impl_path(*referred_type_name)));"),
     .local_ "tested by if(x) on the same optional in this function"),
   (("tags_generator.hpp", "handle_public_encoding", "recursion", "calls make_tag"),
@@ -247,12 +255,18 @@ def guardTable : List (SiteKey × Guard) := [
     .local_ "tested by if(x) on the same optional in this function"),
   (("tags_generator.hpp", "make_group_tags", "recursion", "calls make_member_tags"),
     .unguarded .nestingTooDeep),
+  (("tags_generator.hpp", "make_group_tags", "popback", "path.pop_back();"),
+    .order "pops what the matching push_back / emplace_back a few lines above in the same function pushed"),
   (("tags_generator.hpp", "make_group_tags", "optderef", "make_message_impl_path(*context.mangled_name));"),
     .local_ "tested by if(x) on the same optional in this function"),
   (("tags_generator.hpp", "make_member_tags", "recursion", "calls make_group_tags"),
     .unguarded .nestingTooDeep),
+  (("tags_generator.hpp", "make_message_tag", "popback", "path.pop_back();"),
+    .order "pops what the matching push_back / emplace_back a few lines above in the same function pushed"),
   (("tags_generator.hpp", "make_message_tag", "optderef", "m.name, make_message_impl_path(*context.mangled_name));"),
     .local_ "tested by if(x) on the same optional in this function"),
+  (("tags_generator.hpp", "make_message_tags_impl", "popback", "path.pop_back();"),
+    .order "pops what the matching push_back / emplace_back a few lines above in the same function pushed"),
   (("tags_generator.hpp", "generate", "optderef", "*context.mangled_tag_types_name),"),
     .local_ "tested by if(x) on the same optional in this function"),
   (("tags_generator.hpp", "generate", "optderef", "*context.mangled_tag_messages_name),"),
@@ -271,16 +285,22 @@ def guardTable : List (SiteKey × Guard) := [
     .order "the caller pushes the numInGroup parameter name first"),
   (("traits_generator.hpp", "make_group_size_bytes_impl", "recursion", "calls make_group_size_bytes_impl"),
     .unguarded .nestingTooDeep),
+  (("traits_generator.hpp", "make_group_size_bytes_impl", "popback", "path.pop_back();"),
+    .order "pops what the matching push_back / emplace_back a few lines above in the same function pushed"),
   (("traits_generator.hpp", "make_size_bytes_params", "assert", "assert(param_names.size() == param_types.size());"),
     .order "names and types are pushed pairwise"),
   (("traits_generator.hpp", "get_group_size_bytes_params", "recursion", "calls get_group_size_bytes_params"),
     .unguarded .nestingTooDeep),
+  (("traits_generator.hpp", "get_group_size_bytes_params", "popback", "path.pop_back();"),
+    .order "pops what the matching push_back / emplace_back a few lines above in the same function pushed"),
   (("traits_generator.hpp", "make_traits_tag", "recursion", "calls make_traits_tag"),
     .unguarded .nestingTooDeep),
   (("traits_generator.hpp", "make_member_traits", "recursion", "calls make_traits"),
     .unguarded .nestingTooDeep),
   (("traits_generator.hpp", "make_level_traits", "recursion", "calls make_member_traits"),
     .unguarded .nestingTooDeep),
+  (("types_compiler.hpp", "compile", "popback", "dependencies.pop_back();"),
+    .order "pops what the matching push_back / emplace_back a few lines above in the same function pushed"),
   (("types_compiler.hpp", "get_min_value", "optderef", "*t.min_value, t.primitive_type);"),
     .local_ "tested by if(x) on the same optional in this function"),
   (("types_compiler.hpp", "get_min_value", "at", "return built_in_min_values.at(t.primitive_type);"),
@@ -347,6 +367,8 @@ def guardTable : List (SiteKey × Guard) := [
     .order "compile pushes a dependency set before the first public encoding"),
   (("types_compiler.hpp", "compile_public_encoding", "frontback", "name, detail_type, public_type, dependencies.back(), traits);"),
     .order "compile pushes a dependency set before the first public encoding"),
+  (("types_compiler.hpp", "compile_public_encoding", "popback", "dependencies.pop_back();"),
+    .order "pops what the matching push_back / emplace_back a few lines above in the same function pushed"),
   (("utils.hpp", "primitive_type_to_cpp_type", "at", "return map.at(type);"),
     .rule "validate" "validate_encoding(type): primitiveType is a primitive type; field types are tested with is_primitive_type"),
   (("utils.hpp", "primitive_type_to_wrapper_type", "assert", "assert(presence != field_presence::constant);"),
@@ -363,6 +385,14 @@ def guardTable : List (SiteKey × Guard) := [
     .local_ "tested by if(x) on the same optional in this function"),
   (("utils.hpp", "get_valid_offset", "optderef", "*offset,"),
     .local_ "tested by if(x) on the same optional in this function"),
+  (("utils.hpp", "strip_leading_zeros", "index", "const auto is_negative = (!value.empty() && (value[0] == '-'));"),
+    .local_ "!value.empty() in the same condition"),
+  (("utils.hpp", "strip_leading_zeros", "substr", "auto digits = value.substr(is_negative ? 1 : 0);"),
+    .local_ "is_negative implies !value.empty(): 1 <= size()"),
+  (("utils.hpp", "strip_leading_zeros", "substr", "digits = digits.empty() ? digits : digits.substr(digits.size() - 1);"),
+    .local_ "digits.empty() tested in the same expression"),
+  (("utils.hpp", "strip_leading_zeros", "substr", "digits = digits.substr(first_non_zero);"),
+    .local_ "first_non_zero != npos is an index into digits"),
   (("utils.hpp", "to_integer_literal", "assert", "assert(!value.empty() && (type != \"float\") && (type != \"double\"));"),
     .rule "validate" "value_fits_into_type: min/max/null/constant/validValue texts parse in the type"),
   (("utils.hpp", "to_integer_literal", "index", "if((type == \"int64\") && (value[0] == '-'))"),
@@ -375,6 +405,10 @@ def guardTable : List (SiteKey × Guard) := [
     .rule "validate" "value_fits_into_type: min/max/null/constant/validValue texts parse in the type"),
   (("utils.hpp", "to_integer_literal", "optderef", "if(*v > max_signed_literal)"),
     .rule "validate" "value_fits_into_type: the text parses in the type"),
+  (("utils.hpp", "parse_value_ref", "substr", "res.enum_name = value_ref.substr(0, dot_pos);"),
+    .local_ "dot_pos != npos tested before: dot_pos < size(), dot_pos + 1 <= size()"),
+  (("utils.hpp", "parse_value_ref", "substr", "res.enumerator = value_ref.substr(dot_pos + 1);"),
+    .local_ "dot_pos != npos tested before: dot_pos < size(), dot_pos + 1 <= size()"),
   (("utils.hpp", "numeric_literal_to_value", "assert", "assert(!value.empty());"),
     .rule "validate" "value_fits_into_type: min/max/null/constant/validValue texts parse in the type"),
   (("utils.hpp", "get_schema_encoding", "at", "return schema.types.at(lowered_name);"),
